@@ -10,30 +10,36 @@ Members123 == <<1, 2, 3>>
 Members1 == <<1>>
 
 CONSTANT MaxMembOps    \* bound on AddClient / RemoveClients operations per history
-VARIABLE hist
-gvars == <<vars, hist>>
+\* hcmode: LBClient.HealthCheck is "default" (healthy <=> the client returned no error) or "custom"
+\* (a configured callback decides: it tolerates some errors and may reject an error-free result)
+VARIABLES hist, hcmode
+gvars == <<vars, hist, hcmode>>
 MembOps == Cardinality({ i \in 1..Len(hist) : hist[i].op # "call" })
 
 Between == pc[1] \in {"idle", "done", "noclients"}
 SetSeq(S) == LET RECURSIVE F(_) 
                  F(T) == IF T = {} THEN << >> ELSE LET x == CHOOSE y \in T : \A z \in T : y <= z IN <<x>> \o F(T \ {x})
              IN F(S)
-Rec(op, c, set, allowed, ok, sn) == [op |-> op, c |-> c, set |-> SetSeq(set), allowed |-> SetSeq(allowed), ok |-> ok, snap |-> sn]
+Rec(op, c, set, allowed, ok, sn) == [op |-> op, c |-> c, set |-> SetSeq(set), allowed |-> SetSeq(allowed), ok |-> ok, err |-> ~ok, snap |-> sn]
+RecE(op, c, set, allowed, ok, e, sn) == [Rec(op, c, set, allowed, ok, sn) EXCEPT !.err = e]
 FirstMin == LET m == Minimal(snap[1]) IN snap[1][CHOOSE i \in m : \A j \in m : i <= j].c
 AllowedNow == { snap[1][i].c : i \in Minimal(snap[1]) }
 
-GInit == Init /\ hist = << >>
-GNext ==
+GInit == Init /\ hist = << >> /\ hcmode \in {"default", "custom"}
+GNext0 ==
   \/ GetBegin(1) /\ hist' = (IF CurMembers = << >> THEN Append(hist, Rec("call", 0, {}, {}, FALSE, << >>)) ELSE hist)
   \/ Choose(1) /\ chosen'[1] = FirstMin /\ UNCHANGED hist      \* the tie-break of the code (first minimal member);
                                                                \* the harness still accepts every member of `allowed`
   \/ (ReadLoad(1) \/ CallStart(1) \/ Succeed(1) \/ IncPenalty(1) \/ Undo(1) \/ UndoTotal(1)) /\ UNCHANGED hist
-  \/ \E h \in BOOLEAN : CallEnd(1, h) /\ hist' = Append(hist, Rec("call", chosen[1], {}, AllowedNow, h, snap[1]))
-  \/ \E c \in Clients : Between /\ MembOps < MaxMembOps /\ AddClient(c) /\ hist' = Append(hist, Rec("add", c, {}, {}, FALSE, << >>))
-  \/ \E S \in SUBSET Clients : Between /\ MembOps < MaxMembOps /\ RemoveClients(S) /\ hist' = Append(hist, Rec("remove", 0, S, {}, FALSE, << >>))
+  \/ \E h \in BOOLEAN, e \in BOOLEAN :
+        /\ hcmode = "default" => e = ~h         \* ok: h = healthy (what the accounting follows), e = the client returned an error
+        /\ CallEnd(1, h) /\ hist' = Append(hist, RecE("call", chosen[1], {}, AllowedNow, h, e, snap[1]))
+  \/ \E c \in Clients : Between /\ hcmode = "default" /\ MembOps < MaxMembOps /\ AddClient(c) /\ hist' = Append(hist, Rec("add", c, {}, {}, FALSE, << >>))
+  \/ \E S \in SUBSET Clients : Between /\ hcmode = "default" /\ MembOps < MaxMembOps /\ RemoveClients(S) /\ hist' = Append(hist, Rec("remove", 0, S, {}, FALSE, << >>))
+GNext == UNCHANGED hcmode /\ GNext0
 GSpec == GInit /\ [][GNext]_gvars
 
 Terminal == started = MaxCalls /\ Between
-Obs == [ init |-> InitMembers, ext |-> ext, hist |-> hist ]
+Obs == [ init |-> InitMembers, ext |-> ext, hist |-> hist, hc |-> hcmode ]
 Emit == ~Terminal \/ PrintT("BEHAVIOUR " \o ToJson(Obs))
 =============================================================================
